@@ -41,3 +41,36 @@ def dedupe(pairs):
 
 def count_pos(xs):
     return sum(1 for x in xs if x > 0)
+
+
+def pairs_of(xs):
+    return [[x, x + 1] for x in xs]
+
+
+def parts(xs):
+    return [s.split(".") for s in xs]
+
+
+def dicts_of(xs):
+    return [{"v": x} for x in xs]
+
+
+def firsts(rows):
+    return [r[0] for r in rows if len(r) > 0]
+
+
+def any_neg(rows):
+    return [any(x < 0 for x in r) for r in rows]
+
+
+def total(xs):
+    t = 0
+    for x in xs:
+        t += x
+    return t
+
+
+def update_all(ds):
+    for d in ds:
+        d["n"] = d.get("n", 0) + 1
+    return ds
